@@ -1,5 +1,241 @@
-"""Mutation corpus (in-memory overlays).  Populated per property."""
+"""Mutation corpus: (a) mutants -- each breaks one structural clause of a property while staying syntactically valid;
+the named rule must report it;  (b) refactor variants -- behaviour-preserving edits that must stay silent.
+Edits are exact text replacements (the anchor text must occur exactly once in the current file; otherwise the entry is
+counted as stale, never as passed)."""
+
+CORPUS = []
+
+_D = "src/scenic/core/distributions.py"
+_R = "src/scenic/core/regions.py"
+_S = "src/scenic/core/scenarios.py"
+_SC = "src/scenic/core/sample_checking.py"
+_RQ = "src/scenic/core/requirements.py"
+_OT = "src/scenic/core/object_types.py"
+_V = "src/scenic/core/vectors.py"
+_VE = "src/scenic/syntax/veneer.py"
+_CO = "src/scenic/syntax/compiler.py"
+_G = "src/scenic/syntax/scenic.gram"
+_PR = "src/scenic/core/pruning.py"
+_RL = "src/scenic/syntax/relations.py"
+_SI = "src/scenic/core/simulators.py"
+_DS = "src/scenic/core/dynamics/scenarios.py"
+_IV = "src/scenic/core/dynamics/invocables.py"
+_BH = "src/scenic/core/dynamics/behaviors.py"
+_PP = "src/scenic/core/propositions.py"
+_SE = "src/scenic/core/serialization.py"
+_VI = "src/scenic/core/visibility.py"
+_RD = "src/scenic/domains/driving/roads.py"
+_LE = "src/scenic/core/lazy_eval.py"
+_GE = "src/scenic/core/geometry.py"
+_WS = "src/scenic/core/workspaces.py"
+_TR = "src/scenic/syntax/translator.py"
+_DOC = "docs/reference/specifiers.rst"
 
 
-def run(prop=None, jobs=16, verbose=False):
-    return 0
+def M(prop, rule, file, old, new, ident):
+    CORPUS.append({"prop": prop, "rule": rule, "file": file, "old": old, "new": new, "id": ident, "kind": "mutant"})
+
+
+def RF(prop, file, old, new, ident):
+    CORPUS.append({"prop": prop, "rule": "", "file": file, "old": old, "new": new, "id": ident, "kind": "refactor"})
+
+
+# ---------------------------------------------------------------- C01
+M("C01", "C01.draw", _D, "        return random.uniform(value[self.low], value[self.high])", "        return random.uniform(value[self.low], self.high)", "c01-range-raw-high")
+M("C01", "C01.draw", _D, "        idx = value[self.index]\n", "        idx = self.index.sample()\n", "c01-multiplexer-resample-index")
+M("C01", "C01.sample", _D, "            if q not in subsamples:\n                subsamples[q] = q.sample(subsamples) if needsSampling(q) else q", "            if True:\n                subsamples[q] = q.sample(subsamples) if needsSampling(q) else q", "c01-sampleall-no-memo")
+M("C01", "C01.loop", _S, "            if random.random() <= req.prob:\n                req.active = True\n            else:\n                req.active = False", "            if random.random() >= req.prob:\n                req.active = True\n            else:\n                req.active = False", "c01-activation-flipped")
+M("C01", "C01.loop", _S, "            iterations += 1\n            try:", "            try:", "c01-counter-dropped")
+M("C01", "C01.loop", _S, "        scene = self._makeSceneFromSample(sample)\n        return scene, iterations", "        sample = Samplable.sampleAll(self.dependencies)\n        scene = self._makeSceneFromSample(sample)\n        return scene, iterations", "c01-unchecked-resample")
+M("C01", "C01.clone", _D, "        return type(self)(self.low, self.high)\n\n    def bucket(self, buckets=None):\n        if buckets is None:\n            buckets = 5", "        return type(self)(self.high, self.low)\n\n    def bucket(self, buckets=None):\n        if buckets is None:\n            buckets = 5", "c01-range-clone-swapped")
+M("C01", "C01.clone", _D, "        return type(self)(self.low, self.high, self.weights, self.emptyMessage)", "        return type(self)(self.low, self.high, None, self.emptyMessage)", "c01-discreterange-clone-drops-weights")
+M("C01", "C01.weights", _D, "                if prob == 0:\n                    continue\n                options.append(opt)\n                weights.append(prob)", "                options.append(opt)\n                if prob == 0:\n                    continue\n                weights.append(prob)", "c01-options-misaligned")
+M("C01", "C01.weights", _D, "            self.options = tuple(range(low, high + 1))", "            self.options = tuple(range(low, high))", "c01-discreterange-off-by-one")
+RF("C01", _S, "        rejection = True\n        iterations = 0\n        while rejection is not None:", "        iterations = 0\n        rejection = True\n        while rejection is not None:", "c01-rf-reorder-init")
+RF("C01", _D, "        return random.uniform(value[self.low], value[self.high])", "        lo, hi = value[self.low], value[self.high]\n        return random.uniform(lo, hi)", "c01-rf-range-locals")
+
+# ---------------------------------------------------------------- C02
+M("C02", "C02.skip", _SC, "        while reqs and reqs[-1].optional:\n            reqs.pop()", "        while len(reqs) > 3:\n            reqs.pop()", "c02-pop-nonoptional")
+M("C02", "C02.skip", _SC, "        reqs = [req for req in self.requirements if req.active]", "        reqs = [req for req in self.requirements if req.active and not isinstance(req, IntersectionRequirement)]", "c02-filter-drops-intersections")
+M("C02", "C02.skip", _SC, "            if rejected:\n                return req.violationMsg\n", "            if rejected:\n                return req.violationMsg\n            if metrics[1] > 1.0:\n                return None\n", "c02-early-accept-on-slow-check")
+M("C02", "C02.optional", _RQ, "    def __init__(self, obj, container, optional=False):", "    def __init__(self, obj, container, optional=True):", "c02-containment-optional")
+M("C02", "C02.polarity", _RQ, "        return not container.containsObject(obj)", "        return container.containsObject(obj)", "c02-containment-polarity")
+M("C02", "C02.coverage", _S, "            if needsSampling(obj.allowCollisions) or not obj.allowCollisions\n        )", "            if not needsSampling(obj.allowCollisions) and not obj.allowCollisions\n        )", "c02-random-allowcollisions-skipped")
+M("C02", "C02.coverage", _S, "            if not isinstance(container, AllRegion):\n                requirements.append(ContainmentRequirement(obj, container))", "            if not isinstance(container, AllRegion) and obj is not self.egoObject:\n                requirements.append(ContainmentRequirement(obj, container))", "c02-ego-not-contained")
+M("C02", "C02.oneshot", _S, "        possible_occluders = tuple(\n            filter(lambda x: (needsSampling(x.occluding) or x.occluding), self.objects)\n        )", "        possible_occluders = filter(\n            lambda x: (needsSampling(x.occluding) or x.occluding), self.objects\n        )", "c02-occluders-oneshot")
+RF("C02", _SC, "        reqs = [req for req in self.requirements if req.active]", "        reqs = [r for r in self.requirements if r.active]", "c02-rf-rename")
+RF("C02", _SC, "        while reqs and reqs[-1].optional:\n            reqs.pop()", "        while reqs:\n            if not reqs[-1].optional:\n                break\n            reqs.pop()", "c02-rf-while-break")
+
+# ---------------------------------------------------------------- C03
+M("C03", "C03.weights", _R, "        areas = (triangle.area for triangle in triangles)", "        areas = (triangle.area for triangle in triangles if triangle.area > 1e-6)", "c03-areas-filtered")
+M("C03", "C03.member", _R, "            if all(region._trueContainsPoint(point) for region in regs):\n                return point", "            if all(region._trueContainsPoint(point) for region in sampling_regions):\n                return point", "c03-intersection-partial-membership")
+M("C03", "C03.member", _R, "        if random.random() < 1 - 1 / containment_count:", "        if random.random() < 1 / containment_count:", "c03-union-multiplicity")
+M("C03", "C03.height", _R, "                return self.orient(Vector(x, y, self.z))", "                return self.orient(Vector(x, y, 0))", "c03-polygon-sample-z0")
+M("C03", "C03.operand", _R, "            if hasattr(o, \"circumcircle\"):\n                center, radius = o.circumcircle\n                candidates = self.kdTree.query_ball_point(center, radius)\n            else:\n                # No cheap bound on the other region: consider every point.\n                candidates = range(len(self.kdTree.data))", "            center, radius = o.circumcircle\n            candidates = self.kdTree.query_ball_point(center, radius)", "c03-circumcircle-unguarded")
+RF("C03", _R, "        areas = (triangle.area for triangle in triangles)", "        areas = [t.area for t in triangles]", "c03-rf-areas-list")
+
+# ---------------------------------------------------------------- C04
+M("C04", "C04.polarity", _R, "                if point_distance < s_inradius + o_inradius:\n                    return True", "                if point_distance < s_circumradius + o_circumradius:\n                    return True", "c04-overlap-from-circumradii")
+M("C04", "C04.polarity", _R, "                s_inradius, s_circumradius = self._interiorPointRadii", "                s_circumradius, s_inradius = self._interiorPointRadii", "c04-radii-swapped")
+M("C04", "C04.polarity", _R, "            if center_distance > self._circumradius + other._circumradius:\n                return False", "            if center_distance < self._circumradius + other._circumradius:\n                return False", "c04-disjoint-flipped")
+M("C04", "C04.polarity", _R, "            if region_distance > obj_circumradius:\n                return True", "            if region_distance < obj_circumradius:\n                return True", "c04-contains-flipped")
+M("C04", "C04.polarity", _R, "        hullPoly = obj.occupiedSpace._boundingPolygonHull\n        if self.polygons.contains(hullPoly):\n            return True", "        hullPoly = obj.occupiedSpace._boundingPolygonHull\n        if not self.polygons.contains(hullPoly):\n            return False", "c04-hull-not-contained-false")
+M("C04", "C04.planar", _OT, "            if abs(self.position.z - other.position.z) > (self.height + other.height) / 2:\n                return False", "            if abs(self.position.z - other.position.z) > (self.height + other.height):\n                return False", "c04-planar-height-test")
+M("C04", "C04.planar", _OT, "        if self._isPlanarBox and (isinstance(other, Object) and other._isPlanarBox):", "        if self._isPlanarBox and isinstance(other, Object):", "c04-planar-other-unchecked")
+RF("C04", _R, "            if center_distance > self._circumradius + other._circumradius:\n                return False", "            if self._circumradius + other._circumradius < center_distance:\n                return False", "c04-rf-swap-compare")
+
+# ---------------------------------------------------------------- C05
+M("C05", "C05.lift", _V, "            return makeDelayedFunctionCall(helper, (self,) + args, {})", "            return makeDelayedFunctionCall(helper, args, {})", "c05-vectorop-drops-self")
+M("C05", "C05.lift", _D, "            return makeDelayedFunctionCall(helper, (self,) + args, kwargs)\n        else:\n            return method(self, *args, **kwargs)\n\n    return helper\n\n\nclass AttributeDistribution", "            return makeDelayedFunctionCall(helper, (self,) + args, {})\n        else:\n            return method(self, *args, **kwargs)\n\n    return helper\n\n\nclass AttributeDistribution", "c05-distmethod-drops-kwargs")
+M("C05", "C05.rebuild", _D, "        return SliceDistribution(start, stop, step)", "        return SliceDistribution(start, step, stop)", "c05-slice-swapped")
+M("C05", "C05.rebuild", _D, "        low = valueInContext(self.low, context)\n        high = valueInContext(self.high, context)\n        return Range(low, high)", "        low = valueInContext(self.low, context)\n        high = self.high\n        return Range(low, high)", "c05-range-raw-high")
+M("C05", "C05.shortcut", _D, "    elif op in (\"__truediv__\", \"__pow__\"):", "    elif op in (\"__truediv__\", \"__rtruediv__\", \"__pow__\"):", "c05-rtruediv-identity")
+M("C05", "C05.shortcut", _D, "    if op in (\"__add__\", \"__radd__\", \"__sub__\"):", "    if op in (\"__add__\", \"__radd__\", \"__sub__\", \"__rsub__\"):", "c05-rsub-identity")
+M("C05", "C05.support", _D, "            elif self.operator == \"__sub__\":\n                l = l1 - r2\n                r = r1 - l2", "            elif self.operator == \"__sub__\":\n                l = l1 - l2\n                r = r1 - r2", "c05-sub-interval")
+M("C05", "C05.support", _D, "            if l is None or r is None:\n                return None, None\n            if self.operator == \"__neg__\":", "            if self.operator == \"__neg__\":", "c05-neg-none")
+M("C05", "C05.support", _GE, "@distributionFunction(support=_hypotSupport)\ndef hypot(*args) -> float:", "@monotonicDistributionFunction\ndef hypot(*args) -> float:", "c05-hypot-monotonic")
+M("C05", "C05.names", _V, "        bx, by, bz = other.x, other.y, other.z", "        bx, by, ba = other.x, other.y, other.z", "c05-cross-typo")
+RF("C05", _D, "            elif self.operator == \"__sub__\":\n                l = l1 - r2\n                r = r1 - l2", "            elif self.operator == \"__sub__\":\n                l = -r2 + l1\n                r = -l2 + r1", "c05-rf-sub-commuted")
+
+# ---------------------------------------------------------------- C06
+M("C06", "C06.table", _VE, "        props[\"parentOrientation\"] = 2\n", "        props[\"parentOrientation\"] = 3\n", "c06-on-priority")
+M("C06", "C06.table", _VE, "        new = DelayedArgument({axis, \"contactTolerance\"}, val)", "        new = DelayedArgument({axis}, val)", "c06-object-variant-deps")
+M("C06", "C06.table", _DOC, "\t* :prop:`position` with priority 1\n\t* :prop:`parentOrientation` with priority 3\n\n**Dependencies**: None\n\nPositions the object at the given coordinates in the local coordinate system of :scenic:`ego`", "\t* :prop:`position` with priority 1\n\t* :prop:`parentOrientation` with priority 2\n\n**Dependencies**: None\n\nPositions the object at the given coordinates in the local coordinate system of :scenic:`ego`", "c06-doc-offsetby-priority")
+M("C06", "C06.deps", _VE, "        DelayedArgument({\"position\", \"parentOrientation\"}, helper),\n    )\n\n\ndef FacingDirectlyToward(pos):", "        DelayedArgument({\"parentOrientation\"}, helper),\n    )\n\n\ndef FacingDirectlyToward(pos):", "c06-facingtoward-missing-position-dep")
+M("C06", "C06.deps", _OT, "        \"baseOffset\": PropertyDefault(\n            (\"height\",), {}, lambda self: Vector(0, 0, -self.height / 2)\n        ),", "        \"baseOffset\": PropertyDefault(\n            (), {}, lambda self: Vector(0, 0, -self.height / 2)\n        ),", "c06-baseoffset-undeclared-dep")
+M("C06", "C06.errors", _OT, "                        raise SpecifierError(\n                            f'property \"{prop}\" specified twice with the same priority'\n                        )", "                        raise ValueError(\n                            f'property \"{prop}\" specified twice with the same priority'\n                        )", "c06-wrong-error-class")
+M("C06", "C06.fold", _OT, "                    if spec.priorities[prop] < priorities[prop]:\n                        properties[prop] = spec\n                        priorities[prop] = spec.priorities[prop]\n                else:\n                    # This property has not already been specified, so we should initialize it.", "                    if spec.priorities[prop] <= priorities[prop]:\n                        properties[prop] = spec\n                else:\n                    # This property has not already been specified, so we should initialize it.", "c06-fold-priority-not-updated")
+M("C06", "C06.heading2d", _OT, "            if spec.name == \"With(heading)\" and tuple(spec.priorities) == (\"heading\",):", "            if spec.name == \"With heading\" and tuple(spec.priorities) == (\"heading\",):", "c06-2d-name-mismatch")
+RF("C06", _VE, "    props = {\"position\": 1}\n    values = {\"position\": pos}\n    if alwaysProvidesOrientation(region):\n        props[\"parentOrientation\"] = 3\n        values[\"parentOrientation\"] = region.orientation[pos]\n    return Specifier(\"In\", props, values)", "    priorities = {\"position\": 1}\n    values = {\"position\": pos}\n    if alwaysProvidesOrientation(region):\n        priorities[\"parentOrientation\"] = 3\n        values[\"parentOrientation\"] = region.orientation[pos]\n    return Specifier(\"In\", priorities, values)", "c06-rf-rename-props")
+
+# ---------------------------------------------------------------- C07
+M("C07", "C07.directional", _VE, "            self.width / 2 + dx + dims[0] / 2 + tol, dy, dz\n        ),", "            self.width / 2 + dx + dims[1] / 2 + tol, dy, dz\n        ),", "c07-right-wrong-dim")
+M("C07", "C07.directional", _VE, "            dx, -self.length / 2 - dy - dims[1] / 2 - tol, dz\n        ),", "            dx, -self.length / 2 + dy - dims[1] / 2 - tol, dz\n        ),", "c07-behind-sign")
+M("C07", "C07.directional", _VE, "        \"height\",\n        lambda dist: (0, 0, dist),\n        lambda self, dims, tol, dx, dy, dz: Vector(\n            dx, dy, self.height / 2 + dz + dims[2] / 2 + tol\n        ),", "        \"height\",\n        lambda dist: (0, dist, 0),\n        lambda self, dims, tol, dx, dy, dz: Vector(\n            dx, dy, self.height / 2 + dz + dims[2] / 2 + tol\n        ),", "c07-above-tocomponents")
+M("C07", "C07.directional", _VE, "        if dist is None:\n            return ct / 2\n        else:\n            return 0", "        if dist is None:\n            return ct\n        else:\n            return 0", "c07-contact-offset")
+M("C07", "C07.corners", _OT, "        return self.relativize(Vector(-self.hw, self.hl, self.hh))\n\n    @cached_property\n    def topFrontRight(self):", "        return self.relativize(Vector(self.hw, self.hl, self.hh))\n\n    @cached_property\n    def topFrontRight(self):", "c07-topfrontleft-sign")
+M("C07", "C07.corners", _OT, "            self.relativePosition(Vector(hw, -hl, -hh)),\n        )", "            self.relativePosition(Vector(hw, -hl, hh)),\n        )", "c07-corners-duplicate")
+M("C07", "C07.binding", _VE, "def Beyond(pos, offset, fromPt=None):", "def Beyond(pos, offset, fromPoint=None):\n    fromPt = fromPoint", "c07-beyond-keyword-renamed")
+M("C07", "C07.fields", _G, "s.RelativeHeadingOp(target=e1, base=e2, LOCATIONS)", "s.RelativeHeadingOp(target=e1, origin=e2, LOCATIONS)", "c07-grammar-field-typo")
+M("C07", "C07.facing", _VE, "        rotated = direction.applyRotation(context.parentOrientation.inverse)\n        sphericalCoords = (\n            rotated.sphericalCoordinates()\n        )  # Ignore the rho, sphericalCoords[0]", "        rotated = direction\n        sphericalCoords = (\n            rotated.sphericalCoordinates()\n        )  # Ignore the rho, sphericalCoords[0]", "c07-facingtoward-ignores-parent")
+M("C07", "C07.const", _CO, "            right=ast.Constant(0.017453292519943295),", "            right=ast.Constant(0.01745329251994),", "c07-deg-constant")
+RF("C07", _VE, "            self.width / 2 + dx + dims[0] / 2 + tol, dy, dz\n        ),", "            dx + (self.width + dims[0]) / 2 + tol, dy, dz\n        ),", "c07-rf-right-regrouped")
+
+# ---------------------------------------------------------------- C08
+M("C08", "C08.cmpop", _RL, "        if not isinstance(op, (Lt, LtE, Eq)):\n            return None, None, None\n", "        if not isinstance(op, (Lt, LtE, Eq, NotEq)):\n            return None, None, None\n", "c08-noteq-as-bound")
+M("C08", "C08.cmpop", _RL, "                    return (-const + match, const + match, target)", "                    return (-const - match, const - match, target)", "c08-abs-sub-algebra")
+M("C08", "C08.polarity", _PR, "            minRadius, _ = supportInterval(obj.inradius)", "            _, minRadius = supportInterval(obj.inradius)", "c08-erosion-upper-radius")
+M("C08", "C08.polarity", _PR, "                _, maxDistance = supportInterval(offset.norm())\n        else:\n            maxDistance = 0\n\n        # Compute the minimum radius", "                maxDistance, _ = supportInterval(offset.norm())\n        else:\n            maxDistance = 0\n\n        # Compute the minimum radius", "c08-erosion-lower-offset")
+M("C08", "C08.polarity", _PR, "                return field, lower + ol, upper + oh", "                return field, lower + oh, upper + ol", "c08-heading-offsets-swapped")
+M("C08", "C08.subset", _PR, "            candidateBase = currBase.intersect(bufferHelper(ego.visibleRegion))", "            candidateBase = bufferHelper(ego.visibleRegion)", "c08-visible-region-replaces-base")
+M("C08", "C08.subset", _PR, "                z=getattr(base, \"z\", 0),\n", "", "c08-rh-prune-drops-z")
+M("C08", "C08.progress", _PR, "                    eroded_container = container._erodeOverapproximate(\n                        maxErosion, current_pitch\n                    )", "                    eroded_container = container._erodeOverapproximate(\n                        maxErosion, PRUNING_PITCH\n                    )", "c08-erosion-constant-pitch")
+M("C08", "C08.progress", _R, "            iterations = math.ceil(minBuffer / target_pitch) + 1", "            iterations = math.floor(minBuffer / target_pitch) + 1", "c08-buffer-floor")
+M("C08", "C08.room", _R, "            dense = numpy.pad(dense, iterations)\n            transform = transform @ translation_matrix([-iterations] * 3)", "            pass", "c08-dilation-no-padding")
+M("C08", "C08.none", _PR, "    if maxRadius is None:\n        return float(\"inf\")", "    if maxRadius is None:\n        return None", "c08-visibilitybound-none")
+RF("C08", _PR, "            minRadius, _ = supportInterval(obj.inradius)", "            minRadius, _unused = supportInterval(obj.inradius)", "c08-rf-unused-name")
+
+# ---------------------------------------------------------------- C09
+M("C09", "C09.capture", _G, "scenic_deg: a=term \"deg\" { s.DegOp(operand=a, LOCATIONS) }", "scenic_deg: a=term [\"deg\"] { s.DegOp(operand=a, LOCATIONS) }", "c09-deg-keyword-optional")
+M("C09", "C09.identity", _CO, "        if self.inInterruptBlock and not self.inLoop:\n            if not self.usedBreak:", "        if not self.inLoop:\n            if not self.usedBreak:", "c09-break-rewritten-everywhere")
+M("C09", "C09.identity", _CO, "trackedNames = {\"ego\", \"workspace\"}", "trackedNames = {\"ego\", \"workspace\", \"scene\"}", "c09-extra-tracked-name")
+M("C09", "C09.identity", _CO, "            elif newFunc.id == \"int\":\n                newFunc.id = \"_toIntScenic\"", "            elif newFunc.id == \"int\":\n                newFunc.id = \"_toIntScenic\"\n            elif newFunc.id == \"abs\":\n                newFunc.id = \"_toFloatScenic\"", "c09-abs-renamed")
+M("C09", "C09.lineno", _G, "s.Override(target=e, specifiers=ss, LOCATIONS)", "s.Override(target=e, specifiers=ss)", "c09-override-unlocated")
+M("C09", "C09.lineno", _G, "    | 'yield' 'from' a=expression { ast.YieldFrom(value=a, LOCATIONS) }", "    | 'yield' 'from' a=expression { ast.YieldFrom(value=a) }", "c09-yieldfrom-unlocated")
+
+# ---------------------------------------------------------------- C10
+M("C10", "C10.visitors", _CO, "    def visit_FieldAtOp(self, node: s.FieldAtOp):", "    def visit_FieldAt(self, node: s.FieldAtOp):", "c10-visitor-renamed")
+M("C10", "C10.errargs", _G, "        return EXPR_NAME_MAPPING.get(node_t, \"expression\")", "        return EXPR_NAME_MAPPING[node_t]", "c10-get-expr-name-keyerror")
+M("C10", "C10.raises", _CO, "            raise self.makeSyntaxError(\n                \"Cannot use `yield` inside a compose/behavior block\", node\n            )", "            raise ValueError(\"Cannot use `yield` inside a compose/behavior block\")", "c10-compiler-valueerror")
+M("C10", "C10.errargs", _G, "        if mark.end != name.start:", "        if mark.lineno != name.lineno:", "c10-tokeninfo-lineno")
+M("C10", "C10.errargs", _G, "                conversion.string.encode()[0]", "                conversion.decode()[0]", "c10-token-decode")
+M("C10", "C10.deactivate", _TR, "    finally:\n        veneer.deactivate()\n        if not _cacheImports:", "    finally:\n        if not _cacheImports:", "c10-no-deactivate")
+M("C10", "C10.loops", _G, "scenic_class_statements[list]: a=scenic_class_statement+ {", "scenic_class_statements[list]: a=([scenic_class_statement])+ {", "c10-nullable-repeat")
+
+# ---------------------------------------------------------------- C11
+M("C11", "C11.chain", _G, "    | a=scenic_above_until 'until' b=scenic_above_until { s.UntilOp(a, b, LOCATIONS) }", "    | a=scenic_above_until 'until' b=scenic_above_until { s.UntilOp(b, a, LOCATIONS) }", "c11-until-swapped-grammar")
+M("C11", "C11.chain", _CO, "            func=ast.Name(id=\"Until\", ctx=loadCtx),\n            args=[self.visit(left), self.visit(right)],", "            func=ast.Name(id=\"Until\", ctx=loadCtx),\n            args=[self.visit(right), self.visit(left)],", "c11-until-swapped-compiler")
+M("C11", "C11.chain", _VE, "def Eventually(req):\n    return propositions.Eventually(req)", "def Eventually(req):\n    return propositions.Always(req)", "c11-eventually-is-always")
+M("C11", "C11.chain", _PP, "        ltl_node = rv_ltl.Implies(lhs.ltl_node, rhs.ltl_node)", "        ltl_node = rv_ltl.Implies(rhs.ltl_node, lhs.ltl_node)", "c11-implies-swapped-ltl")
+M("C11", "C11.chain", _PP, "    def __str__(self):\n        return f\"({self.lhs} until {self.rhs})\"\n\n    @property\n    def children(self):\n        return [self.lhs, self.rhs]", "    def __str__(self):\n        return f\"({self.lhs} until {self.rhs})\"\n\n    @property\n    def children(self):\n        return [self.lhs]", "c11-until-child-dropped")
+M("C11", "C11.classes", _PP, "    def evaluate(self):\n        return not self.lhs.evaluate() or self.rhs.evaluate()", "    def evaluate(self):\n        return self.lhs.evaluate() and self.rhs.evaluate()", "c11-implies-meaning")
+M("C11", "C11.classes", _PP, "        ltl_node = rv_ltl.Next(req.ltl_node)\n        super().__init__(ltl_node)\n        self.req = req\n        self.is_temporal = True", "        ltl_node = rv_ltl.Next(req.ltl_node)\n        super().__init__(ltl_node)\n        self.req = req", "c11-next-not-temporal")
+M("C11", "C11.monitor", _DS, "            if result == rv_ltl.B4.FALSE:\n                raise RejectSimulationException(str(m))", "            if result == rv_ltl.B4.PRESUMABLY_FALSE:\n                raise RejectSimulationException(str(m))", "c11-reject-on-presumably-false")
+M("C11", "C11.monitor", _DS, "        if self._requirementMonitors is not None:\n            self._requirementMonitors.append(dreq.toMonitor())", "        pass", "c11-dynamic-require-unmonitored")
+M("C11", "C11.monitor", _RQ, "        self.monitor = self.proposition.create_monitor()\n        self.lastValue = rv_ltl.B4.TRUE", "        self.monitor = self.proposition.create_monitor()\n        self.lastValue = rv_ltl.B4.FALSE", "c11-initial-verdict")
+
+# ---------------------------------------------------------------- C12
+M("C12", "C12.order", _SI, "            # Record current state of the simulation\n            self.recordCurrentState()\n\n            # Run monitors\n            newReason = dynamicScenario._runMonitors()\n            if newReason is not None:\n                terminationReason = newReason\n                terminationType = TerminationType.terminatedByMonitor\n", "            # Run monitors\n            newReason = dynamicScenario._runMonitors()\n            if newReason is not None:\n                terminationReason = newReason\n                terminationType = TerminationType.terminatedByMonitor\n\n            # Record current state of the simulation\n            self.recordCurrentState()\n", "c12-record-after-monitors")
+M("C12", "C12.order", _SI, "            self.step()\n            self.currentTime += 1\n            self.updateObjects()", "            self.step()\n            self.updateObjects()\n            self.currentTime += 1", "c12-clock-after-refresh")
+M("C12", "C12.scenario", _DS, "            and self._elapsedTime >= self._timeLimitInSteps", "            and self._elapsedTime > self._timeLimitInSteps", "c12-time-limit-off-by-one")
+M("C12", "C12.logs", _SI, "            self.actionSequence.append(allActions)\n            self.executeActions(allActions)", "            if allActions:\n                self.actionSequence.append(allActions)\n            self.executeActions(allActions)", "c12-conditional-action-log")
+M("C12", "C12.logs", _SI, "            if not set(self.agents) == set(schedule):\n                raise RuntimeError(\"Simulator schedule does not contain all agents\")\n", "", "c12-schedule-unchecked")
+RF("C12", _SI, "            self.step()\n            self.currentTime += 1\n            self.updateObjects()", "            self.step()\n            self.currentTime += 1\n            # refresh\n            self.updateObjects()", "c12-rf-comment")
+
+# ---------------------------------------------------------------- C13
+M("C13", "C13.priority", _CO, "            [ast.Name(n, ast.Load()) for n in reversed(handlerNames)], ast.Load()", "            [ast.Name(n, ast.Load()) for n in handlerNames], ast.Load()", "c13-handlers-not-reversed")
+M("C13", "C13.priority", _IV, "            if interrupt.isEnabled or interrupt.isRunning:\n                block = interrupt\n                break", "            if interrupt.isEnabled or interrupt.isRunning:\n                block = interrupt", "c13-scan-no-break")
+M("C13", "C13.resume", _IV, "            result = self.runningIterator.send(None)\n            return (result, False)", "            result = self.runningIterator.send(None)\n            self.runningIterator = None\n            return (result, False)", "c13-iterator-cleared-each-step")
+M("C13", "C13.invariants", _IV, "            yield result\n            behavior.checkInvariants(None, *behavior._args, **behavior._kwargs)", "            yield result", "c13-no-invariant-recheck")
+M("C13", "C13.invariants", _CO, "        return [\n            invokeAction,\n            checkInvariants,\n        ]", "        return [\n            invokeAction,\n        ]", "c13-invocation-without-invariants")
+M("C13", "C13.abandon", _BH, "            try:\n                yield from sub._runningIterator\n            finally:\n                if sub._isRunning:\n                    sub._stop()", "            yield from sub._runningIterator\n            if sub._isRunning:\n                sub._stop()", "c13-sub-not-stopped-on-abandon")
+M("C13", "C13.abandon", _IV, "                lambda: veneer.currentSimulation.currentTime - startTime >= timeLimit", "                lambda: veneer.currentSimulation.currentTime - startTime > timeLimit", "c13-duration-off-by-one")
+
+# ---------------------------------------------------------------- C14
+M("C14", "C14.globals", _VE, "        _globalParameters = {}\n        inInitialScenario = True\n", "        _globalParameters = {}\n", "c14-ininitialscenario-not-reset")
+M("C14", "C14.globals", _VE, "    currentSimulation = None\n    currentScenario = None\n    runningScenarios = []\n    currentBehavior = None", "    currentSimulation = None\n    currentScenario = None\n    currentBehavior = None", "c14-runningscenarios-leak")
+M("C14", "C14.ctxmgr", _VE, "    evaluatingGuard = True\n    try:\n        yield\n    finally:\n        evaluatingGuard = False", "    evaluatingGuard = True\n    yield\n    evaluatingGuard = False", "c14-guard-flag-no-finally")
+M("C14", "C14.cleanup", _SI, "        self.objects = []\n        self.agents = []\n", "        self.objects = []\n", "c14-agents-unassigned")
+M("C14", "C14.cleanup", _SI, "            finally:\n                # Always roll back the global state, even if the cleanup above fails.\n                veneer.endSimulation(self)", "                veneer.endSimulation(self)\n            finally:\n                pass", "c14-endsimulation-skippable")
+M("C14", "C14.override", _DS, "        if obj in self._overrides:\n            # keep the earliest saved value of each property overridden so far\n            oldVals.update(self._overrides[obj])\n        self._overrides[obj] = oldVals", "        if obj not in self._overrides:\n            self._overrides[obj] = oldVals", "c14-override-record-dropped")
+
+# ---------------------------------------------------------------- C15
+M("C15", "C15.order", _DS, "        self._requirementDeps = {}  # ordered set (keys only), for reproducible sampling", "        self._requirementDeps = set()", "c15-requirementdeps-set")
+M("C15", "C15.order", _RQ, "        return CompiledRequirement(self, closure, tuple(deps), condition)", "        return CompiledRequirement(self, closure, frozenset(deps), condition)", "c15-deps-frozenset")
+M("C15", "C15.rng", _S, "            random.setstate(rand_state)\n            numpy.random.set_state(np_state)", "            random.setstate(rand_state)", "c15-numpy-state-not-restored")
+M("C15", "C15.private", _VI, "        rng = np.random.default_rng(seed=42)", "        rng = np.random.default_rng()", "c15-unseeded-ray-shuffle")
+
+# ---------------------------------------------------------------- C16
+M("C16", "C16.dispatch", _R, "    def union(self, other, triedReversed=False, buf=0):\n        # If one of the regions isn't fixed, fall back on default behavior\n        if isLazy(self) or isLazy(other):\n            return super().union(other, triedReversed)", "    def union(self, other, triedReversed=False, buf=0):\n        # If one of the regions isn't fixed, fall back on default behavior\n        if isLazy(self) or isLazy(other):\n            return super().union(other)", "c16-union-drops-triedreversed")
+M("C16", "C16.dispatch", _R, "        if triedReversed is False and not isinstance(other, PointSetRegion):\n            return other.intersect(self)", "        if triedReversed is False:\n            return other.intersect(self)", "c16-pointset-unflagged-retry")
+M("C16", "C16.override", _R, "    def containsObject(self, obj):\n        raise NotImplementedError\n\n    def containsRegionInner(self, reg, tolerance):\n        raise NotImplementedError\n\n    def distanceTo(self, point):\n        raise NotImplementedError\n\n    def projectVector(self, point, onDirection):\n        raise NotImplementedError\n\n    def uniformPointInner(self):\n        # First generate", "    def containsObject(self, obj):\n        raise NotImplementedError\n\n    def containsRegionInner(self, reg):\n        raise NotImplementedError\n\n    def distanceTo(self, point):\n        raise NotImplementedError\n\n    def projectVector(self, point, onDirection):\n        raise NotImplementedError\n\n    def uniformPointInner(self):\n        # First generate", "c16-voxel-arity")
+M("C16", "C16.names", _R, "        if isinstance(reg, MeshRegion):\n            return buffered_polygons.contains(reg._boundingPolygon)", "        if isinstance(other, MeshRegion):\n            return buffered_polygons.contains(reg._boundingPolygon)", "c16-footprint-unbound-other")
+M("C16", "C16.z", _R, "        return PolygonalRegion(polygon=union, orientation=orientation, z=self.z)", "        return PolygonalRegion(polygon=union, orientation=orientation)", "c16-union-z-dropped")
+M("C16", "C16.z", _R, "        if point.z == self.z:\n            return max(0, point.distanceTo(self.center) - self.radius)", "        if point.z == 0:\n            return max(0, point.distanceTo(self.center) - self.radius)", "c16-circle-z-literal")
+M("C16", "C16.rebuild", _R, "        return DifferenceRegion(\n            regionA,\n            regionB,\n            sampler=self.sampler,\n            name=self.name,\n        )", "        return DifferenceRegion(\n            regionB,\n            regionA,\n            sampler=self.sampler,\n            name=self.name,\n        )", "c16-difference-operands-swapped")
+M("C16", "C16.argmin", _R, "        distances = numpy.linalg.norm(\n            intersection_data - numpy.asarray(point), axis=1\n        )", "        distances = numpy.linalg.norm(intersection_data - numpy.asarray(point))", "c16-argmin-scalar-norm")
+M("C16", "C16.algebra", _R, "    def intersect(self, other, triedReversed=False):\n        return other\n\n    def intersects(self, other, triedReversed=False):\n        return not isinstance(other, EmptyRegion)", "    def intersect(self, other, triedReversed=False):\n        return self\n\n    def intersects(self, other, triedReversed=False):\n        return not isinstance(other, EmptyRegion)", "c16-everywhere-intersect")
+M("C16", "C16.delegate", _WS, "        return self.region.projectVector(point, onDirection)", "        raise self.region.projectVector(point, onDirection)", "c16-workspace-raise")
+RF("C16", _R, "    def union(self, other, triedReversed=False, buf=0):\n        # If one of the regions isn't fixed, fall back on default behavior\n        if isLazy(self) or isLazy(other):\n            return super().union(other, triedReversed)", "    def union(self, other, triedReversed=False, buf=0):\n        # If one of the regions isn't fixed, fall back on default behavior\n        if isLazy(self) or isLazy(other):\n            return super().union(other, triedReversed=triedReversed)", "c16-rf-keyword-forward")
+
+# ---------------------------------------------------------------- C17
+M("C17", "C17.frames", _VI, "        target_vertex = np.array((target_loc - position).coordinates)\n        if orientation is not None:\n            target_vertex = orientation._inverseRotation.apply([target_vertex])[0]\n", "        if orientation is not None:\n            target_loc = orientation._inverseRotation.apply([target_loc])[0]\n        target_vertex = np.array((target_loc - position).coordinates)\n", "c17-rotate-before-translate")
+M("C17", "C17.occluders", _VI, "                if occ_distance <= target_distance:\n                    # The ray is occluded\n                    return False", "                if occ_distance >= target_distance:\n                    # The ray is occluded\n                    return False", "c17-occlusion-comparison")
+M("C17", "C17.occluders", _VI, "                candidate_rays = candidate_rays - occluded_rays", "                candidate_rays = candidate_rays | occluded_rays", "c17-occluder-adds-rays")
+M("C17", "C17.wrappers", _OT, "        true_position = self.position.offsetLocally(self.orientation, self.cameraOffset)\n        return canSee(", "        true_position = self.position + self.cameraOffset\n        return canSee(", "c17-camera-offset-global-frame")
+M("C17", "C17.plumbing", _VE, "            obj for obj in objects if obj.occluding and X is not obj and Y is not obj", "            obj for obj in objects if obj.occluding and X is not obj", "c17-target-occludes-itself")
+
+# ---------------------------------------------------------------- C18
+M("C18", "C18.symmetry", _V, "        return cls(*struct.unpack(\"<ddd\", stream.read(24)))", "        return cls(*struct.unpack(\"<fff\", stream.read(12)))", "c18-vector-format")
+M("C18", "C18.symmetry", _SE, "        return int.from_bytes(_readExactly(stream, 2), byteorder=\"little\", signed=True)", "        return int.from_bytes(_readExactly(stream, 2), byteorder=\"little\", signed=False)", "c18-int16-unsigned")
+M("C18", "C18.symmetry", _SE, "    if 0 <= value <= 252:\n        stream.write(bytes([value]))", "    if 0 <= value <= 253:\n        stream.write(bytes([value]))", "c18-small-int-threshold")
+M("C18", "C18.failclosed", _SE, "    length = readInt(stream)\n    return _readExactly(stream, length)", "    length = readInt(stream)\n    return stream.read(length)", "c18-readbytes-short")
+M("C18", "C18.errors", _SE, "        try:\n            sample = self.readSample(scenario.dependencies)\n            scene = scenario._makeSceneFromSample(sample)\n        except SerializationError:\n            raise\n        except Exception as e:\n            # e.g. a corrupted option index, or a value violating an internal assertion\n            raise SerializationError(\"serialized Scene is corrupted\") from e\n        return scene", "        sample = self.readSample(scenario.dependencies)\n        scene = scenario._makeSceneFromSample(sample)\n        return scene", "c18-readscene-unwrapped")
+M("C18", "C18.symmetry", _SE, "        if verify and optionsHash != scenario.compileOptions.hash:", "        if verify and False:", "c18-options-hash-unchecked")
+M("C18", "C18.divergence", _SI, "            diff = abs(actual - expected)", "            diff = actual - expected", "c18-signed-divergence")
+M("C18", "C18.record", _D, "            subsamples[dist] = value\n            sim.recordSampledValue(dist, subsamples)\n            return value", "            subsamples[dist] = value\n            if not sim.replayCanContinue():\n                return value\n            sim.recordSampledValue(dist, subsamples)\n            return value", "c18-unrecorded-sample")
+
+# ---------------------------------------------------------------- C19
+M("C19", "C19.enabled", _IV, "                for sub, weight in opts.items():\n                    if sub._isEnabledForAgent(agent):\n                        enabled[sub] = weight", "                for sub, weight in opts.items():\n                    enabled[sub] = weight", "c19-disabled-items-eligible")
+M("C19", "C19.enabled", _IV, "                for sub in opts:\n                    if sub._isEnabledForAgent(agent):\n                        enabled[sub] = 1", "                for i, sub in enumerate(opts):\n                    if sub._isEnabledForAgent(agent):\n                        enabled[sub] = i + 1", "c19-sequence-weights")
+M("C19", "C19.schedule", _IV, "                    choice = pickEnabledInvocable(subs)\n                    subs.pop(choice)\n                    yield from self._invokeInner(agent, (choice,))", "                    choice = pickEnabledInvocable(subs)\n                    yield from self._invokeInner(agent, (choice,))\n                    subs.popitem()", "c19-shuffle-removes-wrong-item")
+M("C19", "C19.schedule", _CO, "        return self.makeDoLike(node, node.elts, schedule=\"shuffle\")", "        return self.makeDoLike(node, node.elts, schedule=\"choose\")", "c19-shuffle-compiled-as-choose")
+M("C19", "C19.runtime", _D, "                value = dist.sample(subsamples)\n            # Save the value for future replay", "                value = dist.sample()\n            # Save the value for future replay", "c19-runtime-sample-own-map")
+
+# ---------------------------------------------------------------- C20
+M("C20", "C20.guard", _RD, "            if optionsDigest and optionsDigest != cachedOptionsDigest:", "            if False and optionsDigest != cachedOptionsDigest:", "c20-options-digest-ignored")
+M("C20", "C20.guard", _RD, "        optionsDigest = deterministicHash(kwargs, digest_size=8)", "        optionsDigest = deterministicHash({\"tolerance\": kwargs.get(\"tolerance\")}, digest_size=8)", "c20-options-digest-partial")
+M("C20", "C20.guard", _RD, "            except cls.DigestMismatchError:\n                verbosePrint(\n                    \"Cached network does not match original file or map options; ignoring it.\"\n                )", "            except cls.DigestMismatchError:\n                return cls.fromPickle(pickledPath)", "c20-mismatch-still-loads-cache")
+M("C20", "C20.layout", _RD, "            cachedOptionsDigest = f.read(8)\n            if len(cachedOptionsDigest) != 8:", "            cachedOptionsDigest = f.read(4)\n            if len(cachedOptionsDigest) != 4:", "c20-options-digest-size")
+M("C20", "C20.layout", _RD, "            f.write(digest)  # digest of original map file\n            f.write(optionsDigest)  # digest of map options", "            f.write(optionsDigest)  # digest of map options\n            f.write(digest)  # digest of original map file", "c20-fields-swapped")
+M("C20", "C20.reconnect", _RD, "        for elem in itertools.chain(self.lanes, self.intersections):\n            for maneuver in elem.maneuvers:\n                reconnect(maneuver)", "        for elem in self.intersections:\n            for maneuver in elem.maneuvers:\n                reconnect(maneuver)", "c20-lane-maneuvers-not-reconnected")
